@@ -6,6 +6,18 @@ HERE = os.path.dirname(os.path.abspath(__file__))
 TECH = "deterministic simulation with fault injection: seeded search over schedules, fault scripts and workloads (blsim discrete-event simulator, libc clock/entropy seams), oracle = reference model / ground truth, failures minimised to a replay file"
 
 CLAIMED = {
+ "C04": dict(
+   text="A Byzantine peer substitutes the identity point or the zero scalar for each point-/scalar-typed argument of every verify / decrypt / proof / encryption / signing entry point in turn, alone and together with the companion values that make the pairing equation hold trivially (pk=O with sig=O; key sets {pk,-pk}; PoK u=O with v=-y*sig, y=0 with u=x*H, v=-x*sig; signcryption u=O,w=O; a time-lock ciphertext assembled for pairing value 1 with sig=O; ElGamal c1/c2/pk=O and zero proof scalars / challenge), all schemes and groups: about 90 cases per (scheme, group), all enumerated in every run. A valid aggregate gets an identity-key pair inserted at first/middle/last/random positions with its own, a neighbour's or another signer's message for n up to 64. Oracle: never success.",
+   note="Decryption shares are not in the statement (a zero key share yields an identity share without error): not asserted. PublicKey::sign_crypt returns no Result and is not asserted.",
+   ref="DESIGN.md §4 C04"),
+ "C18": dict(
+   text="Mixed-version cluster: every honest-path scenario class (signing, registration, signcryption, threshold decryption, time-lock beacon, ElGamal tally, aggregation, multi-signatures, threshold signing, both PoK variants, the codec vault) runs with the vendored pinned release mirroring every request of the working tree and vice versa — deterministic outputs byte-equal, artefacts made by one version consumed by the other with the same result. Data at rest: a golden corpus (all 28 types x variants x codecs x groups x 4 payload sizes) written by the pinned flavour under a fixed entropy seed, pinned by a committed digest, is the disk a working-tree party restarts on: decodes to the same value, re-encodes identically. An independent implementation of the documented constructions (signcryption, time-lock, PoK challenge y=H(u||t_le), ElGamal merlin transcript) seals/opens/proves/verifies against the library in both directions.",
+   note="Operation classes in which the pinned release is itself wrong are excluded from the old/new comparison by name (SecretKeyEnum byte forms, decryption-share verification for non-Basic ciphertexts, MessageAugmentation time-lock, timestamps ahead of the verifier's clock). Pinned parties sit on honest paths only. Trusted: the vendored copy of the pinned source, the reference implementation.",
+   ref="DESIGN.md §4 C18"),
+ "C19": dict(
+   text="Mixed-backend cluster: every scenario class (honest, tamper, Byzantine, hostile-input) runs with twin parties, the blst build serving and the pure-Rust build mirroring every request, and the reverse. Deterministic operations must be byte-identical or refused by both; randomized artefacts made by the serving build are consumed by the mirroring build in the subsequent calls with identical plaintext / verdict; accept/reject decisions on all tampered inputs are compared. A tree whose pure-Rust configuration does not compile is a violation (replay = build log).",
+   note="Share sets made by split_with_rng are randomized artefacts (how a back end turns RNG output into coefficients is not a wire format): cross-consumed, not byte-compared. Both flavours are built from /repo's working tree through generated shadow manifests.",
+   ref="DESIGN.md §4 C19"),
  "C06": dict(
    text="Seeded search over simulated aggregation runs: n signers send (pk, msg, sig) to an aggregator through loss, duplication and reordering (with and without de-duplication at the aggregator); verifiers check the aggregate against the exact list, permutations, and one of 12 relay perturbations (message/key altered, pair dropped/added/duplicated/replaced, messages swapped between signers, keys swapped). The library's decision is compared on every list with a reference CoreAggregateVerify under the tree's own tags plus the Basic distinct-message rule; exact lists must verify in any order; single-position perturbations must fail; fewer than two or mixed schemes (every position, aligned runs) must be refused. n walks 2..=64.",
    note="Trusted: reference arithmetic. 'For all n in 2..=64' is covered by the every-n class (a few in quick, all in thorough).",
